@@ -315,6 +315,34 @@ theorem finish_serves (a : AppId) (isHead : Bool) (body : String) (k : Prog) (hk
   refine serves_ite (finishHeaders_serves a _ k hk) ?_
   exact Prog.Serves.step _ _ resp_attrs.2.1 fun r2 => finishHeaders_serves a _ k hk
 
+theorem obtain_serves (a : AppId) (what : String) (k : Prog) (hk : k.Serves a) :
+    (obtain a what k).Serves a := by
+  have hq : ∀ ret : PVal → Prog, (∀ v, (ret v).Serves a) →
+      (envGet a .request "QUERY_STRING" fun _ =>
+        Prog.step a (.fget .request "environ" rTmp) fun _ =>
+        Prog.step a (.dOp rTmp (.set "ombott.request.get" (.str "<query>"))) fun _ => ret (.str "<query>")).Serves a :=
+    fun ret hret => envGet_serves a .request rfl _ _ fun _ =>
+      Prog.Serves.step _ _ req_attr_environ fun _ => Prog.Serves.step _ _ trivial fun _ => hret _
+  have hf : ∀ (d : Nat) (ret : PVal → Prog), (∀ v, (ret v).Serves a) →
+      (reqPost a .request (d + 1) fun _ => environGet a .request "ombott.request.forms" fun v => ret v).Serves a :=
+    fun d ret hret => reqPost_serves a .request rfl _ _ fun _ => environGet_serves a .request rfl _ _ fun v => hret v
+  unfold obtain
+  simp only []
+  refine serves_ite (cacheIn_serves a .request rfl _ _ _ _ hq fun _ => hk) ?_
+  refine serves_ite (cacheIn_serves a .request rfl _ _ _ _
+    (fun ret hret => envGet_serves a .request rfl _ _ fun _ => hret _) fun _ => hk) ?_
+  refine serves_ite (cacheIn_serves a .request rfl _ _ _ _
+    (fun ret hret => Prog.Serves.step _ _ req_attr_environ fun _ => hret _) fun _ => hk) ?_
+  refine serves_ite (cacheIn_serves a .request rfl _ _ _ _ (hf 0) fun _ => hk) ?_
+  refine serves_ite (reqPost_serves a .request rfl _ _ fun _ => hk) ?_
+  refine serves_ite (cacheIn_serves a .request rfl _ _ _ _
+    (fun ret hret => reqPost_serves a .request rfl _ _ fun _ =>
+      environGet_serves a .request rfl _ _ fun v => hret v) fun _ => hk) ?_
+  refine serves_ite (cacheIn_serves a .request rfl _ _ _ _
+    (fun ret hret => cacheIn_serves a .request rfl _ _ _ _ hq fun _ =>
+      cacheIn_serves a .request rfl _ _ _ _ (hf 1) fun _ => hret _) fun _ => hk) ?_
+  exact serves_ite (cacheIn_serves a .request rfl _ _ _ _ (fun ret hret => hret _) fun _ => hk) hk
+
 theorem hop_serves (nest : Req → Prog → Prog) (a : AppId) (cs : List Nat) (op : HOp)
     (hl : op.isLocal = true) (k : List Nat → Prog) (hk : ∀ cs', (k cs').Serves a) :
     (hop nest a cs op k).Serves a := by
@@ -365,6 +393,22 @@ theorem hop_serves (nest : Req → Prog → Prog) (a : AppId) (cs : List Nat) (o
       exact environGet_serves a .request rfl _ _ fun _ => hret _
     · intro _
       exact Prog.Serves.step _ _ trivial fun _ => obsRead_serves a _ _ (hk _)
+  | dump what =>
+    simp only [hop]
+    apply obtain_serves
+    exact Prog.Serves.step _ _ trivial fun _ => obsRead_serves a _ _ (hk _)
+  | mutate what => simp only [hop]; exact obtain_serves a what _ (hk _)
+  | envSet key v =>
+    simp only [hop]
+    exact Prog.Serves.step _ _ req_attr_environ fun _ => Prog.Serves.step _ _ trivial fun _ => hk _
+  | extSet name v =>
+    simp only [hop]
+    exact Prog.Serves.step _ _ req_attr_environ fun _ => Prog.Serves.step _ _ trivial fun _ => hk _
+  | extGet name =>
+    simp only [hop]
+    exact Prog.Serves.step _ _ req_attr_environ fun _ =>
+      Prog.Serves.step _ _ trivial fun _ => obsRead_serves a _ _ (hk _)
+  | whoami => simp only [hop]; exact Prog.Serves.step _ _ trivial fun _ => obsRead_serves a _ _ (hk _)
   | kwargs => simp only [hop]; exact Prog.Serves.step _ _ trivial fun _ => obsRead_serves a _ _ (hk _)
   | urlArgs =>
     simp only [hop]
